@@ -75,6 +75,15 @@ MC_FILTERFORK = {"module": "MC_FilterFork", "cfg": "MC_FilterFork.cfg", "timeout
 MC_FILTERFORK_PREFIX = {"module": "MC_FilterFork", "cfg": "MC_FilterFork_prefix.cfg", "expect": "violation",
                         "timeout": {"quick": 900, "thorough": 1800}, "workers": 6}
 
+# C04 liveness under fairness: eventually nothing is pending and everything is filtered up to the tip (complete graph)
+MC_FILTERFORK_LIVE = {"module": "MC_FilterForkLive", "cfg": {"quick": "MC_FilterForkLive.cfg", "thorough": "MC_FilterForkLive_big.cfg"},
+                      "timeout": {"quick": 900, "thorough": 3000}, "workers": 4}
+# the property exactly as stated ("without ever getting stuck waiting for a block of the abandoned branch"): TLC must
+# exhibit KF-C04-spanning-record as the liveness counterexample
+MC_FILTERFORK_LIVE_STRICT = {"module": "MC_FilterForkLive", "cfg": {"quick": None, "thorough": "MC_FilterForkLive_strict.cfg"},
+                             "expect": "violation", "expect_re": r"Temporal property Resumes was violated",
+                             "timeout": {"quick": 900, "thorough": 900}, "workers": 4}
+
 # C17: the fork switch interleaved with a BlockFilters batch at write granularity, with the matched-blocks lock
 MC_CONC = {"module": "MC_Conc", "cfg": "MC_Conc.cfg", "timeout": {"quick": 600, "thorough": 600}, "workers": 4}
 # the lock discipline before fix 92f2bdb (tip and prove state updated outside the lock): TLC must refute it
@@ -104,7 +113,7 @@ CHECKS = {
     },
     "C04": {
         "trace_module": "Trace_FilterSync",
-        "mc": [MC_FILTERSYNC, MC_FILTERFORK, MC_FILTERFORK_PREFIX],
+        "mc": [MC_FILTERSYNC, MC_FILTERFORK, MC_FILTERFORK_PREFIX, MC_FILTERFORK_LIVE, MC_FILTERFORK_LIVE_STRICT],
         "drivers": [fsync("fork", 40, 300, 4, 10), fsync("forkrand", 15, 100, 1, 4), wsync("fork", 8, 60, 1, 3), freplay(100, 1000, 2, 6)],
         "assumptions": FS_ASSUMPTIONS,
     },
